@@ -33,6 +33,7 @@ type Options struct {
 	Partitions        uint64
 	TableSize         int           // bytes; 0 = default (1 MiB)
 	Manual            bool          // TRUE: push/balancer/janitor/compaction timers at one hour, the driver calls Sync()
+	IdleTables        time.Duration // > 0: storage tables that compaction emptied are freed after this time (default 15 minutes)
 	Housekeeping      time.Duration // > 0: the janitor (empty fragments) and the compaction trigger run at this interval, also in manual mode
 	DMaps             func(*config.DMaps)
 	Tweak             func(*config.Config)
@@ -177,6 +178,9 @@ func (c *Cluster) newConfig() *config.Config {
 	if o.TableSize > 0 {
 		cfg.DMaps.Engine = config.NewEngine()
 		cfg.DMaps.Engine.Config["tableSize"] = uint64(o.TableSize)
+		if o.IdleTables > 0 {
+			cfg.DMaps.Engine.Config["maxIdleTableTimeout"] = o.IdleTables
+		}
 	}
 	if o.DMaps != nil {
 		o.DMaps(cfg.DMaps)
